@@ -587,6 +587,10 @@ func (in *Interp) choiceNamed(n int, name string) int {
 		k := in.nondetSeq[name]
 		in.nondetSeq[name] = k + 1
 		if v, ok := in.cfg.Concrete[fmt.Sprintf("%s#%d", name, k)]; ok {
+			if !v.IsInt64() || v.Int64() < 0 || (n > 0 && v.Int64() >= int64(n)) {
+				// a (perturbed) replay value outside the choice range: not an input of the harness
+				panic(pathEnd{"infeasible", "choice value out of range"})
+			}
 			return int(v.Int64())
 		}
 		return 0
